@@ -238,6 +238,58 @@ theorem crash_before_datasize_on_disk (api : Api) (o : WOpts) (roots : Option (L
   exact resumeCore_unreadable_header api o roots (pre ++ zeros 16) tail hv2 (by simp [hl, zeros]) e
     (by rw [List.append_assoc]; exact he)
 
+/-- (9) **Crash inside a resumption.** `Resume` writes too: it cuts the index off, then zeroes the header in
+    two writes. If it is interrupted after the truncation — with the characteristics in ANY state (first write
+    not started, torn, or done) and the three offset fields still intact — the next resumption succeeds and
+    yields the store of exactly the acknowledged blocks. -/
+theorem crash_inside_resume_offsets_intact (api : Api) (o : WOpts) (roots : Option (List Cid)) (log : List Block)
+    (fi : Bool) (a b : Nat) (ha : a < 2 ^ 64) (hb : b < 2 ^ 64) (hv2 : o.v1 = false)
+    (hwf : (CarHeader.mk roots 1).wf) (hmax : (encodeHeaderBody ⟨roots, 1⟩).length ≤ o.maxHeader)
+    (hmax32 : (encodeHeaderBody ⟨roots, 1⟩).length ≤ 32 * 2 ^ 20)
+    (lok : LayoutOK o.dataPad o.indexPad (payload roots log).length) (hlog : LogOK' log) :
+    let H := finalHeader o.dataPad o.indexPad (payload roots log).length true fi
+    let image := pragma ++ ({ H with charHi := a, charLo := b } : V2Header).bytes ++ (zeros o.dataPad ++ (payload roots log ++ []))
+    ∃ s, (resume api o roots image).res = .ok s ∧ Inv o roots s log ∧ s.closed = false ∧ s.finalized = false ∧
+      s.file = o.filePrefix (zeros 40) ++ payload roots log := by
+  intro H image
+  have hp := payload_length_pos roots log
+  have hHwf : H.wf := finalHeader_wf o.dataPad o.indexPad (payload roots log).length true fi hp lok
+  have hH'wf : ({ H with charHi := a, charLo := b } : V2Header).wf := ⟨ha, hb, hHwf.dOff, hHwf.dSize, hHwf.iOff⟩
+  have hbase : o.base = 51 + o.dataPad := by simp [WOpts.base, hv2]
+  have hoff : H.dataOffset = o.base := by simp [H, finalHeader, hbase]
+  have hio : H.dataOffset + H.dataSize ≤ H.indexOffset := by simp [H, finalHeader]
+  have hcongr := resumeCore_header_congr api o roots ({ H with charHi := a, charLo := b } : V2Header) H
+    (zeros o.dataPad ++ (payload roots log ++ [])) hv2 hH'wf hHwf hoff hoff rfl hio hio
+  have hcore := resumeCore_finalized_any_tail api o roots log fi [] hv2 hwf hmax hmax32 lok hlog
+  have hshape : pragma ++ H.bytes ++ (zeros o.dataPad ++ (payload roots log ++ []))
+      = pragma ++ (H.bytes ++ (zeros o.dataPad ++ (payload roots log ++ []))) := by simp
+  rw [hshape] at hcongr
+  have hres : resumeCore api o roots image = _ := hcongr.trans hcore
+  refine ⟨{ api := api, file := o.filePrefix (zeros 40) ++ payload roots log, base := o.base,
+            pos := (payload roots log).length, idx := insertAll [] (headerSize ⟨roots, 1⟩) log, roots := roots },
+    by simp only [resume, hres], ?_, rfl, rfl, rfl⟩
+  refine ⟨rfl, ⟨zeros 40, [], by simp [zeros], by simp, fun _ _ => rfl⟩, rfl, ?_, rfl⟩
+  have := insertAll_perm [] (headerSize ⟨roots, 1⟩) log
+  simpa using this
+
+/-- (9b) … and once the header slot no longer reads as a header (DataOffset zeroed, or any other unreadable
+    state of the 40 bytes) over the truncated file, the next resumption treats it as the un-finalised file it
+    now is: it succeeds with exactly the acknowledged blocks. -/
+theorem crash_inside_resume_header_unreadable (api : Api) (o : WOpts) (roots : Option (List Cid)) (log : List Block)
+    (hb : Bytes) (hl : hb.length = 40) (e : Err) (hv2 : o.v1 = false)
+    (hbad : readV2Header (hb ++ (zeros o.dataPad ++ payload roots log)) = .error e)
+    (hwf : (CarHeader.mk roots 1).wf) (hmax : (encodeHeaderBody ⟨roots, 1⟩).length ≤ o.maxHeader)
+    (hmax32 : (encodeHeaderBody ⟨roots, 1⟩).length ≤ 32 * 2 ^ 20) (hlog : LogOK' log) :
+    ∃ s, (resumeCore api o roots (pragma ++ hb ++ (zeros o.dataPad ++ payload roots log))).2 = .ok s ∧
+      Inv o roots s log ∧ s.closed = false ∧ s.finalized = false := by
+  have h1 := resumeCore_unreadable_header api o roots hb (zeros o.dataPad ++ payload roots log) hv2 hl e hbad
+  have hpre : o.filePrefix (zeros 40) = pragma ++ zeros 40 ++ zeros o.dataPad := by simp [WOpts.filePrefix, hv2]
+  have hsame : pragma ++ zeros 40 ++ (zeros o.dataPad ++ payload roots log) = o.filePrefix (zeros 40) ++ payload roots log := by
+    rw [hpre]; simp
+  obtain ⟨s, hres, inv, hc, hf, _, _⟩ := resume_open_file api o roots log hwf hmax hmax32 hlog
+  refine ⟨s, ?_, inv, hc, hf⟩
+  rw [h1, hsame]
+  simpa [resume] using hres
 /-- Non-vacuity of (6)/(7): a concrete session, header cut at 37 and at 25 bytes. -/
 example : LayoutOK 0 0 60 ∧ (32 ≤ 37 ∧ 37 ≤ 40) ∧ (24 ≤ 25 ∧ 25 ≤ 32 ∧ 60 % 256 ^ (25 - 24) ≠ 0) := by
   refine ⟨⟨by decide, by decide, by decide⟩, by decide, by decide⟩
